@@ -79,4 +79,8 @@ theorem overlay_frame (d : Bytes) (off size p : Nat) (w : Bytes)
   · simp [show i < off + p by omega, show i < d.length by omega]
   · rw [if_neg (by omega), if_neg (by omega)]
 
+theorem slice_append_slice (c : Bytes) (p a b : Nat) : slice c p a ++ slice c (p + a) b = slice c p (a + b) := by
+  simp only [slice]
+  rw [List.take_add, ← List.drop_drop]
+
 end Pyctr
